@@ -1,8 +1,10 @@
 // CPU side of the Model/X86 validation (C01 leg c).
 // Linked with a generated seqs.s that defines `seq_table[]`/`seq_count`: each entry is a function
-//   void seq_N(unsigned long *io)   io[0..3] = rax rdi rcx rdx on entry and on exit, io[4] = RFLAGS on exit
+//   void seq_N(unsigned long *io)   io[0..3] = rax rdi rcx rdx on entry and on exit, io[4] = RFLAGS on exit,
+//                                   io[5] = a quadword of memory (in/out), io[6] = %rsp before - %rsp after
 // that loads the four registers, clears ZF SF CF OF PF, runs the instruction sequence and dumps the registers.
-// stdin: lines `N rax rdi rcx rdx` (decimal).  stdout: `ok rax rdi rcx rdx zf sf cf of pf` or `fault` (SIGFPE).
+// (load sequences get %rax = &io[5]; store sequences find &io[5] on top of the stack.)
+// stdin: lines `N rax rdi rcx rdx mem` (decimal).  stdout: `ok rax rdi rcx rdx zf sf cf of pf mem rspdelta` or `fault` (SIGFPE).
 #define _GNU_SOURCE
 #include <stdio.h>
 #include <signal.h>
@@ -22,15 +24,16 @@ int main(void) {
   sa.sa_handler = on_fpe;
   sa.sa_flags = SA_NODEFER;
   sigaction(SIGFPE, &sa, 0);
-  unsigned long n, io[5];
-  while (scanf("%lu %lu %lu %lu %lu", &n, &io[0], &io[1], &io[2], &io[3]) == 5) {
+  unsigned long n, io[7];
+  while (scanf("%lu %lu %lu %lu %lu %lu", &n, &io[0], &io[1], &io[2], &io[3], &io[5]) == 6) {
     if (n >= seq_count) { puts("bad"); continue; }
     io[4] = 0;
+    io[6] = 0;
     if (sigsetjmp(jb, 1)) { puts("fault"); continue; }
     seq_table[n](io);
     unsigned long f = io[4];
-    printf("ok %lu %lu %lu %lu %lu %lu %lu %lu %lu\n", io[0], io[1], io[2], io[3],
-           (f >> 6) & 1, (f >> 7) & 1, f & 1, (f >> 11) & 1, (f >> 2) & 1);
+    printf("ok %lu %lu %lu %lu %lu %lu %lu %lu %lu %lu %ld\n", io[0], io[1], io[2], io[3],
+           (f >> 6) & 1, (f >> 7) & 1, f & 1, (f >> 11) & 1, (f >> 2) & 1, io[5], (long)io[6]);
   }
   return 0;
 }
